@@ -19,7 +19,7 @@ type Op struct {
 
 // Case is one operation sequence over one chunking of one content.
 type Case struct {
-	Chunks []int `json:"chunks"` // chunk lengths (0 allowed); content is 1,2,3,...
+	Chunks []int `json:"chunks"` // chunk lengths (0 allowed; -1 = an empty chunk that is a nil View); content is 1,2,3,...
 	Ops    []Op  `json:"ops"`
 }
 
@@ -36,13 +36,20 @@ const poison = 0xEE
 func build(chunks []int) (buffer.VectorisedView, []byte) {
 	total := 0
 	for _, c := range chunks {
-		total += c
+		if c > 0 {
+			total += c
+		}
 	}
 	back := make([]byte, 0, total+4*len(chunks)+4)
 	views := make([]buffer.View, 0, len(chunks))
 	var shadow []byte
 	next := byte(1)
 	for _, c := range chunks {
+		if c < 0 {
+			// an empty chunk may just as well be a nil View (View(nil), NewViewFromBytes(nil))
+			views = append(views, nil)
+			continue
+		}
 		st := len(back)
 		for i := 0; i < c; i++ {
 			back = append(back, next)
@@ -86,6 +93,10 @@ func checkObj(where string, o *obj) *evid.Failure {
 
 // RunCase executes the sequence against pkg/buffer and the model.
 func RunCase(c Case) (nontrivial bool, fail *evid.Failure) {
+	// every operation here is a few slice operations: a case that does not
+	// return is a violation (evid's watchdog reports it with the case)
+	evid.WatchBegin("vv", &c)
+	defer evid.WatchEnd()
 	vv, shadow := build(c.Chunks)
 	cur := &obj{vv: vv, shadow: shadow}
 	all := []*obj{cur}
